@@ -74,6 +74,7 @@ class Block:
         self.keep_attrs = False
         self.bare = False
         self.prefix = ''       # text put before the item (e.g. attributes for verus)
+        self.optional = False  # `//@ extract?`: skip the block when the item is absent
 
 
 def _loop_key(arg):
@@ -164,12 +165,15 @@ class Assembler:
                 self._meta(s[3:].strip())
                 i += 1
                 continue
-            if s.startswith('//@ extract '):
+            if s.startswith('//@ extract ') or s.startswith('//@ extract? '):
                 flush()
-                m = re.match(r'//@ extract\s+(\S+)\s*::\s*(.*)$', s)
+                m = re.match(r'//@ extract(\??)\s+(\S+)\s*::\s*(.*)$', s)
                 if not m:
                     raise UnitSyntax('line %d: bad extract' % (i + 1))
-                blk = Block(m.group(1), parse_selectors(m.group(2)), i + 1)
+                blk = Block(m.group(2), parse_selectors(m.group(3)), i + 1)
+                # `//@ extract? ...`: the block is skipped (recorded), not an anchor loss, when the item does not exist --
+                # lets one unit assemble against two shapes of the tree (before and after a repair); the contract decides
+                blk.optional = bool(m.group(1))
                 i += 1
                 cur_field = None
                 buf = []
@@ -352,6 +356,9 @@ class Assembler:
         try:
             item, parents = src.find(blk.selectors)
         except LookupError as e:
+            if blk.optional:
+                self.dropped.append('O %s optional item absent, block skipped: %s' % (blk.relpath, e))
+                return
             raise AnchorLost(str(e))
         text = src.text
         edits = []  # (start, end, new_text)
@@ -488,6 +495,13 @@ class Assembler:
                                         st[q + 1].text == ':' or st[q - 1].text == ':'):
                                     pat = g[:n_]
                                     break
+                            if len(pat) == 1 and st[pat[0]].text == '_':
+                                # the wildcard parameter `|_|`: give it a (never used) name; no `let` is needed
+                                tmp = '__rbv_p%d_%d' % (closure_no, gi + 1)
+                                edits.append((st[pat[0]].start, st[pat[0]].end, tmp))
+                                self.rewrites.append('R8 %s:%d closure #%d of fn %s: wildcard parameter `_` named `%s`'
+                                                     % (blk.relpath, src.line_of(t.start), closure_no, tgt.name, tmp))
+                                continue
                             simple = (len(pat) == 1 and st[pat[0]].kind == 'ident') or (
                                 len(pat) == 2 and st[pat[0]].text == 'mut' and st[pat[1]].kind == 'ident')
                             if simple or not pat:
